@@ -1,6 +1,7 @@
 import warnings
 from collections import defaultdict
 from contextlib import contextmanager
+from itertools import count
 
 from .util import subvals, toposort
 from .wrap_util import wraps
@@ -93,13 +94,14 @@ def find_top_boxed_args(args):
 
 class TraceStack:
     def __init__(self):
-        self.top = -1
+        self.ids = count()
 
     @contextmanager
     def new_trace(self):
-        self.top += 1
-        yield self.top
-        self.top -= 1
+        # Trace ids are never reused or rewound, and next() on the counter is atomic, so a
+        # trace always gets a larger id than every trace enclosing it, whatever other
+        # threads do concurrently and however earlier traces were left (e.g. by an exception).
+        yield next(self.ids)
 
 
 trace_stack = TraceStack()
